@@ -199,7 +199,10 @@ def gen_frames(rng, tier):
         cs, crel = rand_colsets(rng, k)
         fs = [rand_frame(rng, days[j], MEANV if g == 'mean' else VALS, cs[j]) for j in range(k)]
         how, m, ch = rng.choice(['oj', 'oj', 'oj', 'ij']), rng.choice(['N', 'N', 'ffill', 'bfill']), rng.choice(['oj', 'oj', 'ij'])
-        yield dict(tag='aggf/%s/%d/%s/%s/%s/%s/%s' % (g, k, rel, crel, how, m, ch), lines=['(ops aggf %s %s %s %s %s)' % (g, enc_in(fs), how, m, ch)])
+        sc = ''
+        if rng.random() < 0.3:
+            fs, sc = with_scalars(rng, fs, g), '+scalar'         # a scalar counts in every cell
+        yield dict(tag='aggf/%s/%d/%s/%s/%s/%s/%s%s' % (g, k, rel, crel, how, m, ch, sc), lines=['(ops aggf %s %s %s %s %s)' % (g, enc_in(fs), how, m, ch)])
     # aggregates over MIXED operands (a Series or a one-column frame beside frames / other names): not in the Lean model, the
     # statement is checked directly (check_agg_mixed); known finding C08-A1 lives here
     n = 120 if tier == 'quick' else 3000
